@@ -1823,12 +1823,6 @@ class PyCdlib:
         if child.parent is None:
             raise pycdlibexception.PyCdlibInternalError('Trying to add child without a parent')
 
-        if child.rock_ridge is not None and child.rock_ridge.dr_entries.ce_record is not None and \
-           child.rock_ridge.dr_entries.ce_record.len_cont_area > self.logical_block_size:
-            # A continuation area cannot span logical blocks; refuse now,
-            # while nothing has been changed yet.
-            raise pycdlibexception.PyCdlibInvalidInput('The Rock Ridge name or symlink target is too long to fit a continuation area')
-
         # dir_record.add_child() throws a PyCdlibInvalidInput if it was given a
         # duplicate child, unless we tell it that this is a continuation.
         ret = child.parent.add_child(child, self.logical_block_size,
